@@ -273,7 +273,8 @@ def main():
                     b.check_derivatives(point(a[1]), verbose=False)
                 elif kind == 'estimate_from':
                     b.change_init_values({k: float.fromhex(v) for k, v in a[1].items()})
-                    b.estimate()
+                    rr = b.estimate()
+                    pre_log.append({'action': kind, 'estimates': {k: hx(v) for k, v in rr.get_beta_values().items()}})
                 elif kind == 'quick_from':
                     b.change_init_values({k: float.fromhex(v) for k, v in a[1].items()})
                     b.quick_estimate()
@@ -315,8 +316,9 @@ def main():
                     import io
                     try:
                         with contextlib.redirect_stderr(io.StringIO()):
-                            b.estimate(run_bootstrap=True)
-                        pre_log.append({'action': kind, 'fault': None, 'optimizations': state['n']})
+                            rr = b.estimate(run_bootstrap=True)
+                        pre_log.append({'action': kind, 'fault': None, 'optimizations': state['n'],
+                                        'estimates': {k: hx(v) for k, v in rr.get_beta_values().items()}})
                     except BaseException as e:  # noqa  (KeyboardInterrupt included: this is the fault we inject)
                         pre_log.append({'action': kind, 'fault': type(e).__name__, 'optimizations': state['n']})
                     finally:
@@ -337,9 +339,12 @@ def main():
                 }
 
             pre_log = []
-            res['pre_log'] = pre_log
             for a in run.get('pre') or []:
+                n_log = len(pre_log)
                 act(a)
+                if len(pre_log) == n_log:
+                    pre_log.append({'action': a[0]})
+            res['pre_log'] = list(pre_log)        # one entry per pre action
             del calls[:]
             if run.get('bootstrap'):
                 np.random.seed(int(run.get('np_seed') or 0))
@@ -378,9 +383,13 @@ def main():
             if it is not None:
                 for k, v in it.items():
                     start[k] = float.fromhex(v)
-            for a in run.get('pre') or []:
+            # earlier calls on the same object move the starting vector: change_init_values(point) before an estimation, and a
+            # COMPLETED estimate() writes its estimates back (formulas and starting vector)
+            for a, lg in zip(run.get('pre') or [], res.get('pre_log') or []):
                 if a[0] in ('estimate_from', 'quick_from'):
                     start.update({k: float.fromhex(v) for k, v in a[1].items()})
+                if lg.get('estimates'):
+                    start.update({k: float.fromhex(v) for k, v in lg['estimates'].items()})
             x0 = [start[n] for n in names2]
             res['x0'] = hxl(x0)
             res['re_init'] = hx(b2.calculate_likelihood(x0, scaled=False))
